@@ -334,9 +334,9 @@ class C05(SeqProp):
     assumptions = ["identity of children is decided by the 64-bit FNV-1a hash of the label values: the iff holds up to collisions of that hash "
                    "(theorems carry fnv_injective_on for the two tuples concerned; the unconditional statement is refuted by "
                    "c05_refuted_collision = known finding C05-fnv-collision, whose class is decided in Coq by known_c05)",
-                   "c05_spec_model_partial (the model satisfies the executable spec on every collision-free scenario) is proved for one-vector "
-                   "scenarios: all operations the generator uses on counter / gauge vectors incl. local counter vectors, and histogram vectors "
-                   "without local histogram vectors and with < 2^64 operations; local histogram vectors are tied by the correspondence run only",
+                   "c05_spec_model (the model satisfies the executable spec on every collision-free scenario) is proved for one-vector scenarios over "
+                   "every operation this generator emits, all five vector kinds with local vectors; for histogram vectors its domain predicate also "
+                   "evaluates along the run that no count reaches 2^63",
                    "histogram vectors are created with valid bucket lists (good_buckets); otherwise every request fails, which is C08's subject",
                    "same-child theorems cover histories without remove / reset between the two requests; after a removal a new request "
                    "creates a new child by design (documented in src/vec.rs), which the executable spec follows",
